@@ -312,6 +312,17 @@ def holds(c, v, operand=False):
     fn = _HOLDS.get(t)
     if fn is None:
         raise ValueError(f"no reference rule for {t}")
+    k = c.get("after_assign")
+    if k is not None and k < len(v.spec.get("assign", [])):
+        # declared between two assignments: it certainly binds the assignments made before it; whether it
+        # binds later ones is not documented
+        sub_spec = dict(v.spec, assign=v.spec["assign"][:k])
+        sub_sched = dict(v.s, assign=v.s["assign"][:k])
+        early = fn(c, View(sub_spec, sub_sched), operand)
+        if early == F:
+            return F
+        every = fn(c, v, operand)
+        return T if every == T else U
     return fn(c, v, operand)
 
 
@@ -1099,7 +1110,7 @@ def judge(spec, sched, reported_buffers=None, reported_indicators=None, from_mod
                 ch = rec.get("chosen") or {}
                 for w, c in ch.items():
                     if c:
-                        p = v.wspec[w].get("productivity") if w in v.wspec else None
+                        p = v.wspec[w].get("productivity") if w in v.wspec else (v.cspec[w].get("productivity") if w in v.cspec else None)
                         p = 1 if p is None else p
                         lo += p * (e - s)
                         hi += p * (e - s)
@@ -1211,7 +1222,8 @@ def objective_value(o, v, spec):
         return Fraction(tot)
     if t in ("TasksStartLatest", "MinimizeGreatestStartTime"):
         names = names_all if o.get("tasks") is None else o["tasks"]
-        if any(not v.sch(n) for n in names) or not names:
+        names = [n for n in names if v.sch(n)]  # an unscheduled task contributes to no objective (C06)
+        if not names:
             return None
         vals = [v.start(n) for n in names]
         return Fraction(min(vals) if t == "TasksStartLatest" else max(vals))
